@@ -41,7 +41,7 @@ LabelLen(q) ==
 RECURSIVE Squeeze(_)
 Squeeze(sq) == IF sq = << >> THEN << >> ELSE IF Head(sq) = " " THEN Squeeze(Tail(sq)) ELSE <<Head(sq)>> \o Squeeze(Tail(sq))
 (* the only defined label is "a", surrounded by any amount of whitespace (labels are compared trimmed, inner whitespace collapsed) *)
-Defined(lab) == Squeeze(lab) = <<"a">> /\ \A i \in 1..(Len(lab) - 1) : ~(lab[i] = "a" /\ lab[i + 1] = "a")
+Defined(lab) == Squeeze(lab) \in {<<"a">>, <<"A">>}              \* (and case-folded)
 HasBracket(sq) == \E i \in DOMAIN sq : sq[i] \in {"[", "]"}
 
 Top == br[Len(br)]
